@@ -249,7 +249,7 @@ def build_series_transformer(spec):
     if k == "imputer":
         from sktime.transformations.series.impute import Imputer
 
-        return Imputer(method=spec.get("method", "mean"), value=spec.get("value"))
+        return Imputer(method=spec.get("method", "mean"), value=spec.get("value"), random_state=spec.get("random_state"))
     return pools.build_transformer(spec)
 
 
@@ -258,6 +258,7 @@ series_transformer_specs = st.one_of(
     st.builds(lambda n: {"kind": "pacf", "n_lags": n}, st.integers(1, 4)),
     st.just({"kind": "cos"}),
     st.builds(lambda m: {"kind": "imputer", "method": m}, st.sampled_from(["mean", "median", "ffill", "bfill", "pad", "backfill", "drift", "linear", "nearest"])),
+    st.builds(lambda r: {"kind": "imputer", "method": "random", "random_state": r}, st.integers(0, 50)),
     st.builds(lambda w, s: {"kind": "hampel", "window_length": w, "n_sigma": s}, st.integers(3, 7), st.sampled_from([1, 2, 3])),
     st.builds(lambda m: {"kind": "boxcox", "method": m}, st.sampled_from(["mle", "pearsonr"])),
     st.just({"kind": "log"}),
